@@ -34,7 +34,9 @@ STRENGTHENED = {
     'C11-m19', 'C12-m17', 'C12-m18', 'C12-m19', 'C13-m18', 'C14-m18', 'C16-m18', 'C18-m18', 'C19-m19', 'C20-m18',
     # wave 7 (C05-m20, C05-m21, C14-m21: strengthened from the authors' reports before the first evaluation)
     'C02-m22', 'C05-m20', 'C05-m21', 'C05-m22', 'C06-m22', 'C07-m21', 'C07-m22', 'C09-m20', 'C09-m22', 'C10-m21',
-    'C11-m22', 'C14-m21', 'C17-m20', 'C18-m22', 'C20-m20', 'C20-m21'}
+    'C11-m22', 'C14-m21', 'C17-m20', 'C18-m22', 'C20-m20', 'C20-m21',
+    # wave 8 (C05-m24: strengthened from the author's report before the first evaluation)
+    'C01-m24', 'C04-m25', 'C05-m24', 'C11-m23', 'C16-m25', 'C18-m25', 'C20-m23', 'C20-m25'}
 
 
 def title(notes):
